@@ -39,10 +39,13 @@ def combos(thorough):
         scripts = [[['Success', 0.0]], [['Success', 3.0]], [['KnownIssue', 0.0], ['Success', 0.0]],
                    [['KnownIssue', 0.0], ['KnownIssue', 0.0], ['Success', 0.0]],
                    [['ResourceExhausted', 0.0], ['Success', 0.0]], [['KnownIssue', 3.0], ['Success', 3.0]],
-                   [['KnownIssue', 0.0]] * 4 + [['Success', 0.0]], [['Success', 0.0], ['KnownIssue', 0.0], ['Success', 0.0]]]
+                   [['KnownIssue', 0.0]] * 4 + [['Success', 0.0]], [['Success', 0.0], ['KnownIssue', 0.0], ['Success', 0.0]],
+                   [['Success', 0.0], ['LaunchOSError', 0.0], ['Success', 0.0]], [['LaunchOSError', 0.0], ['Success', 0.0]],
+                   [['Success', 0.0], ['LaunchOSError', 0.0], ['LaunchOSError', 0.0], ['Success', 0.0]]]
     else:
         retries, delays, checks = [0, 1], [None, 8.0], ['true', 'false']
-        scripts = [[['Success', 0.0]], [['Success', 3.0]], [['KnownIssue', 0.0], ['Success', 0.0]]]
+        scripts = [[['Success', 0.0]], [['Success', 3.0]], [['KnownIssue', 0.0], ['Success', 0.0]],
+                   [['Success', 0.0], ['LaunchOSError', 0.0], ['Success', 0.0]], [['KnownIssue', 0.0], ['KnownIssue', 0.0], ['Success', 0.0]]]
     patterns = ['out0', 'out0+last', 'periodic+last', 'last-only', 'none'] + (['periodic'] if thorough else [])
     events = ['notify', 'kill+notify']
     for r in retries:
@@ -54,6 +57,11 @@ def combos(thorough):
                             if e == 'kill+notify' and (p not in ('out0+last', 'periodic+last') or len(s) > 1):
                                 continue
                             if not thorough and d is not None and (len(s) > 1 or s[0][1] > 0 or r != 0 or p in ('none', 'last-only')):
+                                continue
+                            if not thorough and c == 'false' and p in ('out0', 'periodic+last'):
+                                # with check-producer-output off the engine never looks at output times: out0+last covers these
+                                continue
+                            if not thorough and len(s) > 2 and (d is not None or p not in ('out0+last', 'periodic+last')):
                                 continue
                             yield {'retries': r, 'delay': d, 'check': c, 'script': s, 'pattern': p, 'event': e}
 
@@ -193,6 +201,7 @@ def execute(combo, k, window=26.0, horizon_after=400.0, line_level=True):
         obs['end_time'] = rt.now
         obs['launches'] = [[e['t'], e['n']] for e in h.H.events if e['kind'] == 'launch' and e['ref'] == 'stage0.Obs']
         obs['exits'] = [[e['t'], e['n'], e['reason']] for e in h.H.events if e['kind'] == 'exit' and e['ref'] == 'stage0.Obs']
+        obs['launch_failed'] = [[e['t'], e['n']] for e in h.H.events if e['kind'] == 'launch-failed' and e['ref'] == 'stage0.Obs']
         obs['errors'] = [e[1] for e in rt.errors]
         obs['retries_left'] = engine._stateDict['repeatRetries']
         obs['t_primed'] = obs.get('t_primed')
@@ -237,13 +246,25 @@ def judge(combo, o):
             successes += 1
         else:
             failures += 1
+    # lower bound: without a success, a kill delay or an external kill the observer must not stop before its retries are
+    # used up. Judged only when every round executes (check-producer-output off and output present from the start), so
+    # that the launches after the notification are exactly the attempts.
+    launch_failed_after = len([1 for t, n in o.get('launch_failed', []) if t > tn])
+    if (not successes and combo['delay'] is None and o['t_kill'] is None and combo['check'] == 'false'
+            and combo['pattern'] in ('out0', 'out0+last', 'periodic', 'periodic+last')
+            and len(after) + launch_failed_after < combo['retries'] + 1):
+        bad.append(('observer stopped after %d unsuccessful attempt(s) following the notification although repeatRetries=%d '
+                    '(%d attempts allowed)' % (len(after) + launch_failed_after, combo['retries'], combo['retries'] + 1),
+                    'C13:stopped-before-retries-used-up'))
     if failures > combo['retries'] + 1 + (1 if in_flight else 0):
         bad.append(('%d failed executions after the notification but repeatRetries=%d' % (failures, combo['retries']), 'C13:too-many-retries'))
     # (ii) final output observed
     externally_killed = o['t_kill'] is not None
     if combo['pattern'] in ('out0', 'out0+last', 'periodic', 'periodic+last') and not externally_killed:
         t_o = max(outs)
-        if not any(t > t_o for t, n in o['launches']):
+        # an attempt whose submission failed (the task could not be created) counts as an attempt made after the output
+        attempts = [t for t, n in o['launches']] + [t for t, n in (o.get('launch_failed') or [])]
+        if not any(t > t_o for t in attempts):
             bad.append(('producers finished at t=%.6f with last output at t=%.6f; the observer stopped (exit reason %s) without '
                         'starting an execution after that output (launches at %s, event landed at %s)' % (
                             tn, t_o, o['exitReason'], [round(t, 3) for t, n in o['launches']], o['where']),
@@ -278,7 +299,7 @@ def run_combo(col, combo, ks=None):
         col.outcome('launches=%d after=%d reason=%s alive=%s' % (
             len(o['launches']), len([1 for t, _ in o['launches'] if t > o['t_notify']]), o['exitReason'], o['alive']))
         for why, sig in bad:
-            col.fail({'combo': combo, 'k': k}, why, {x: o[x] for x in ('where', 'launches', 'exits', 't_out', 't_notify', 't_kill', 'exitReason', 'retries_left', 'errors', 't_primed')}, sig=sig)
+            col.fail({'combo': combo, 'k': k}, why, {x: o[x] for x in ('where', 'launches', 'exits', 't_out', 't_notify', 't_kill', 'exitReason', 'retries_left', 'errors', 't_primed', 'launch_failed')}, sig=sig)
 
 
 # ------------------------------------------------------------------ part B: observers inside the real controller
@@ -288,6 +309,8 @@ def b_scenarios(thorough):
            ('observer2', {}, {'stage0.P': 12.0}), ('observer2', {}, {'stage0.P': 12.0, 'stage0.Q': 30.0}),
            ('observer-2subj', {}, {'stage0.S1': 8.0, 'stage0.S2': 14.0}), ('observer-2subj', {}, {'stage0.S1': 14.0, 'stage0.S2': 8.0}),
            ('observer-2subj', {}, {'stage0.S1': 3.0, 'stage0.S2': 12.0}),
+           ('observer-2subj-rev', {}, {'stage0.A': 9.0, 'stage0.S1': 30.0, 'stage0.S2': 12.0}),
+           ('observer-2subj-rev', {}, {'stage0.S1': 8.0, 'stage0.S2': 14.0}),
            ('observer-2subj', {}, {'stage0.A': 9.0, 'stage0.S1': 17.0, 'stage0.S2': 20.0}),
            ('xobserver', {}, {'stage0.A': 12.0}), ('xobs-mixed', {}, {'stage0.P': 5.0, 'stage1.S': 12.0}),
            ('observer', {'stage0.B': 'RS'}, {'stage0.B': 8.0}), ('observer-2subj', {'stage0.S2': 'RS'}, {'stage0.S1': 7.0, 'stage0.S2': 8.0})]
